@@ -738,6 +738,8 @@ int main(int argc, char **argv)
 	mcenv::cur = &cs;
 	Runner run(rep);
 	RUN = &run;
+	// every case starts from the same coin state and clock, whether it runs alone or inside a batch
+	run.F.prologue = [&cs]() { cs.reset(mcenv::env_seed(), 99); mcenv::cur = &cs; mcenv::set_clock(1700000000); };
 	std::string family = A.get("family", "import");
 	std::vector<Target> V;
 	{
